@@ -89,15 +89,24 @@ KnownFinding(a, b) ==
 FieldSpecials == {":", "\\"}
 ListSpecials == {":", ",", "\\"}
 Esc(toks, specials) == [i \in DOMAIN toks |-> IF toks[i] \in specials THEN "\\" \o toks[i] ELSE toks[i]]
-(* esc = TRUE: the code as it is (separators inside free-text fields are escaped);              *)
-(* esc = FALSE: the format before the fix, used to enumerate the collisions it had.              *)
-Text(toks, specials, esc) == Flat(IF esc THEN Esc(toks, specials) ELSE toks)
+(* The escaping scheme is part of the key builders: the property is the injectivity of the ESCAPED  *)
+(* concatenation, so the alphabet of the free-text fields contains the escape character "\\" itself  *)
+(* (alone, trailing, doubled, in front of a separator) besides the separators.  Modes:              *)
+(*   "full" the code as it is: every separator and every escape character of the field is escaped;  *)
+(*   "none" the format before the fix (no escaping), used to enumerate the collisions it had;       *)
+(*   "lazy" a tempting shortcut that is WRONG: a value without separators is written unchanged even *)
+(*          if it contains the escape character -- a trailing "\\" then escapes the separator that   *)
+(*          follows the field: replica labels <<"a\\", "b">> and <<"a,b">> both render as a\\,b.       *)
 Bool(b) == IF b THEN "true" ELSE "false"
+Text(toks, specials, mode) ==
+    IF mode = "none" THEN Flat(toks)
+    ELSE IF mode = "lazy" /\ \A i \in DOMAIN toks : toks[i] \notin (specials \ {"\\"}) THEN Flat(toks)
+    ELSE Flat(Esc(toks, specials))
 
 RECURSIVE JoinFrom(_, _, _)
-JoinFrom(list, i, esc) ==
+JoinFrom(list, i, mode) ==
     IF i > Len(list) THEN ""
-    ELSE (IF i > 1 THEN "," ELSE "") \o Text(list[i], ListSpecials, esc) \o JoinFrom(list, i + 1, esc)
+    ELSE (IF i > 1 THEN "," ELSE "") \o Text(list[i], ListSpecials, mode) \o JoinFrom(list, i + 1, mode)
 ShardKey(sh) == IF ~sh.on THEN "-" ELSE ToString(sh.total) \o ":" \o ToString(sh.index)
 
 (* how the code prints [][]*labels.Matcher with %s: "[" groups separated by spaces "]" *)
@@ -106,17 +115,20 @@ PrintSelFrom(ms, i) == IF i > Len(ms) THEN "" ELSE (IF i > 1 THEN " " ELSE "") \
 PrintMatchers(ms) == "[" \o PrintSelFrom(ms, 1) \o "]"
 
 (* The fields after "fe", in order; the key is "fe" followed by ":" + field for each.  *)
-Fields(r, esc) ==
+FieldsMode(r, mode) ==
     IF r.kind = "range" THEN
-      << Text(r.tenant, FieldSpecials, esc), Flat(r.query), ToString(r.step), ToString(r.split),
+      << Text(r.tenant, FieldSpecials, mode), Flat(r.query), ToString(r.step), ToString(r.split),
          ToString(r.start \div r.split), ToString(Level(r.msr)), ShardKey(r.shard), ToString(r.lookback),
-         Text(r.engine, FieldSpecials, esc), Bool(r.partial), JoinFrom(r.replicas, 1, esc), Bool(r.analyze) >>
+         Text(r.engine, FieldSpecials, mode), Bool(r.partial), JoinFrom(r.replicas, 1, mode), Bool(r.analyze) >>
     ELSE IF r.kind = "labels" THEN
-      << Text(r.tenant, FieldSpecials, esc), Text(r.label, FieldSpecials, esc), PrintMatchers(r.matchers),
+      << Text(r.tenant, FieldSpecials, mode), Text(r.label, FieldSpecials, mode), PrintMatchers(r.matchers),
          ToString(r.split), ToString(r.start \div r.split) >>
     ELSE
-      << Text(r.tenant, FieldSpecials, esc), PrintMatchers(r.matchers), ToString(r.split), ToString(r.start \div r.split) >>
+      << Text(r.tenant, FieldSpecials, mode), PrintMatchers(r.matchers), ToString(r.split), ToString(r.start \div r.split) >>
 RECURSIVE KeyFrom(_, _)
 KeyFrom(fs, i) == IF i > Len(fs) THEN "" ELSE ":" \o fs[i] \o KeyFrom(fs, i + 1)
-Key(r, esc) == "fe" \o KeyFrom(Fields(r, esc), 1)
+KeyMode(r, mode) == "fe" \o KeyFrom(FieldsMode(r, mode), 1)
+(* esc = TRUE: the code as it is; esc = FALSE: the format before the fix *)
+Fields(r, esc) == FieldsMode(r, IF esc THEN "full" ELSE "none")
+Key(r, esc) == KeyMode(r, IF esc THEN "full" ELSE "none")
 =============================================================================
